@@ -15,7 +15,10 @@ value), `GCluster` = n such nodes whose `rs` components form the layer-1 `Cluste
   the model), for every key: the entry the executor serves (value AND remaining TTL,
   `Redis.view` at instant 0) is `materialise` of the replication state's value.
 * one kernel-checked `…_counterexample` per excluded class (`Glue.Reason`); each is replayed on
-  the real actors by `harness/src/c06.rs scenarios()` on every run.
+  the real actors by `harness/src/c06.rs scenarios()` on every run.  (Four former classes —
+  `SET … EXAT/PXAT/KEEPTTL`, `INCR*/APPEND` on keys with a TTL, a remote hash over a local
+  string, multi-key `DEL` — were repaired by `fix:` commits; their witnesses are now `example`s
+  of supported histories.)
 * `converged_reads_equal_partial` — layer 1 composed with layer 2: under `KindStable`, `Delivered`
   and the cluster-level supported fragment, all nodes answer GET / HGETALL / EXISTS identically.
 * `served_winner_partial` — … and for a string key that answer is the value of the write with
@@ -54,11 +57,12 @@ def C06_converged_reads_equal : Prop :=
 /-! ## the proved forms -/
 
 /-- **C06 (a replica serves what its replication state says), partial**: hypothesis
-    `Glue.Supported` (decidable).  Outside it: commands the recorder ignores that change the
-    keyspace; `SET … EXAT/PXAT`, `KEEPTTL` on a key with a TTL; `INCR*/APPEND` on a key with a
-    TTL; a remote hash that wins while the executor holds another type; malformed deltas
-    (non-canonical, empty register, other CRDT kinds, `expiry_ms` 0 or beyond `i64`) — one
-    counterexample theorem each, below. -/
+    `Glue.Supported` (decidable).  Outside it only: commands the recorder ignores that change the
+    keyspace (outside the property's command list) and malformed deltas (non-canonical, empty
+    register, other CRDT kinds, `expiry_ms` 0 or beyond `i64`) — one counterexample theorem
+    each, below.  Inside it: SET with every option, DEL, INCR/DECR/INCRBY/DECRBY/APPEND/GETSET
+    with or without TTL, HSET/HDEL/HINCRBY, failing and wrong-type commands, every read, and
+    deliveries of arbitrary well-formed string / hash / tombstone deltas including type changes. -/
 theorem served_equals_replicated_partial (rid : Nat) (causal : Bool) (hist : List NEv)
     (hs : Supported (Node.init rid causal) hist) (k : Nat) :
     served ((Node.init rid causal).run hist) k =
@@ -140,8 +144,9 @@ theorem materialise_val_of_strip {o1 o2 : Option RV} (h : o1.map RV.strip = o2.m
 
 /-- **C06 (all replicas answer reads alike), partial** — layer 1 composed with layer 2: for every
     number of nodes and every history of client commands and deliveries in the supported fragment
-    of the cluster (`Glue.GSupported`: the node-level fragment plus "a multi-key DEL ships only its
-    last delta"), for every key whose deltas keep one CRDT kind and have all been delivered
+    of the cluster (`Glue.GSupported` = the node-level fragment at every step; a multi-key DEL is
+    split per key as `ReplicatedShardedState::execute` does), for every key whose deltas keep one
+    CRDT kind and have all been delivered
     everywhere: every two nodes — the writer included — answer GET, HGETALL and EXISTS identically. -/
 theorem converged_reads_equal_partial (n : Nat) (causal : Bool) (hist : List GEv) (k K : Nat)
     (hs : GSupported (GCluster.init n causal) hist)
@@ -211,48 +216,30 @@ theorem non_replicated_writer_counterexample :
       materialise (NMap.get ((Node.init 1 false).run nonReplicatedRun).rs.keys kA) := by
   decide
 
-/-- `SET a v PXAT 5000`: the executor has a deadline, the recorded delta has none -/
-def setPxatRun : List NEv := [.client (.set kA [118] .always (.pxat 5000) false)]
+/-! ### repaired classes: the former witnesses are supported histories now -/
 
-theorem set_pxat_counterexample :
-    unsupported (Node.init 1 false) (.client (.set kA [118] .always (.pxat 5000) false)) =
-      some .setExpiryNotRecorded ∧
-    served ((Node.init 1 false).run setPxatRun) kA ≠
-      materialise (NMap.get ((Node.init 1 false).run setPxatRun).rs.keys kA) := by
-  decide
+/-- `SET a v PXAT 5000`; `SET a v EX 100; SET a w KEEPTTL`; `SET c 5 EX 100; INCR c; APPEND c 1` -/
+def expiryOptsRun : List NEv :=
+  [ .client (.set kA [118] .always (.pxat 5000) false),
+    .client (.set kA [118] .always (.ex 100) false), .client (.set kA [119] .always .keepttl false),
+    .client (.set kB [53] .always (.ex 100) false), .client (.incr kB), .client (.append kB [49]) ]
 
-/-- `SET a v EX 100; SET a w KEEPTTL` -/
-def setKeepTtlRun : List NEv :=
-  [.client (.set kA [118] .always (.ex 100) false), .client (.set kA [119] .always .keepttl false)]
-
-theorem set_keepttl_counterexample :
-    ¬ Supported (Node.init 1 false) setKeepTtlRun ∧
-    served ((Node.init 1 false).run setKeepTtlRun) kA ≠
-      materialise (NMap.get ((Node.init 1 false).run setKeepTtlRun).rs.keys kA) := by
-  decide
-
-/-- `SET c 5 EX 100; INCR c` -/
-def incrTtlRun : List NEv :=
-  [.client (.set kA [53] .always (.ex 100) false), .client (.incr kA)]
-
-theorem incr_with_ttl_counterexample :
-    ¬ Supported (Node.init 1 false) incrTtlRun ∧
-    served ((Node.init 1 false).run incrTtlRun) kA ≠
-      materialise (NMap.get ((Node.init 1 false).run incrTtlRun).rs.keys kA) := by
+example : Supported (Node.init 1 false) expiryOptsRun ∧
+    (served ((Node.init 1 false).run expiryOptsRun) kA).map (·.ttl) = some (some 100000) ∧
+    (served ((Node.init 1 false).run expiryOptsRun) kB).map (·.ttl) = some (some 100000) := by
   decide
 
 /-- the delta of `HSET x f 1` issued by replica 2 -/
 def hashDelta : RV := ((Shard.init 2 false).recordHashWrite kA [(fF', [49])]).2
 
 /-- `SET x v` on node 1, then the concurrent `HSET x f 1` of node 2 arrives and wins by stamp:
-    the HSET of the re-materialisation fails with WRONGTYPE -/
+    the string is deleted, the hash is served -/
 def hashOverStringRun : List NEv :=
   [.client (.set kA [118] .always .none false), .deliver kA hashDelta]
 
-theorem hash_over_string_counterexample :
-    ¬ Supported (Node.init 1 false) hashOverStringRun ∧
-    served ((Node.init 1 false).run hashOverStringRun) kA ≠
-      materialise (NMap.get ((Node.init 1 false).run hashOverStringRun).rs.keys kA) := by
+example : Supported (Node.init 1 false) hashOverStringRun ∧
+    (served ((Node.init 1 false).run hashOverStringRun) kA).map (·.val) =
+      some (.hash [(fF', [49])]) := by
   decide
 
 /-- a crafted register that is neither a tombstone nor a value -/
@@ -289,20 +276,26 @@ theorem recovered_over_existing_counterexample :
 theorem C06_served_equals_replicated_false : ¬ C06_served_equals_replicated := fun h =>
   non_replicated_writer_counterexample.2 (h 1 false nonReplicatedRun kA)
 
-/-- `SET a 1; SET b 2` on node 0, both delivered to node 1; `DEL a b` on node 0 hands back only
-    b's delta, which is delivered: every delta that was SENT for `a` has been delivered, the
-    deltas of `a` are all strings, yet node 1 still serves `a` -/
-def multiKeyDelRun : List GEv :=
-  [ .client 0 (.set kA [49] .always .none false), .client 0 (.set kB [50] .always .none false),
-    .deliver 1 0, .deliver 1 1, .client 0 (.del [kA, kB]), .deliver 1 2 ]
+/-- the shard actor hands back ONE delta per command: for `DEL a b` only b's tombstone (this is
+    why `ReplicatedShardedState::execute` now sends one DEL per key) -/
+theorem shard_multi_key_del_hands_back_last_delta :
+    ((((Node.init 1 false).run
+        [.client (.set kA [49] .always .none false), .client (.set kB [50] .always .none false)]).client
+        (.del [kA, kB])).2.2).map (·.1) = some kB := by
+  decide
 
-theorem multi_key_del_counterexample :
-    ¬ GSupported (GCluster.init 2 false) multiKeyDelRun ∧
-    Delivered ((GCluster.init 2 false).run multiKeyDelRun).proj kA ∧
-    KindStable ((GCluster.init 2 false).run multiKeyDelRun).proj kA 0 ∧
+/-- `MSET a w` on node 0 of two: nothing is sent, so everything sent is delivered, yet node 1 does
+    not serve `a` -/
+def nonReplicatedClusterRun : List GEv := [.client 0 (.mset [(kA, [119])])]
+
+theorem non_replicated_cluster_counterexample :
+    ¬ GSupported (GCluster.init 2 false) nonReplicatedClusterRun ∧
+    Delivered ((GCluster.init 2 false).run nonReplicatedClusterRun).proj kA ∧
+    KindStable ((GCluster.init 2 false).run nonReplicatedClusterRun).proj kA 0 ∧
     ¬ (∀ (i j : Nat) (ni nj : Node),
-        ((GCluster.init 2 false).run multiKeyDelRun).nodes[i]? = some ni →
-        ((GCluster.init 2 false).run multiKeyDelRun).nodes[j]? = some nj → ReadsEqual ni nj kA) := by
+        ((GCluster.init 2 false).run nonReplicatedClusterRun).nodes[i]? = some ni →
+        ((GCluster.init 2 false).run nonReplicatedClusterRun).nodes[j]? = some nj →
+        ReadsEqual ni nj kA) := by
   refine ⟨by decide, by decide, by decide, ?_⟩
   intro h
   have := h 0 1 _ _ rfl rfl
@@ -310,8 +303,8 @@ theorem multi_key_del_counterexample :
   decide
 
 theorem C06_converged_reads_equal_false : ¬ C06_converged_reads_equal := fun h =>
-  multi_key_del_counterexample.2.2.2
-    (h 2 false multiKeyDelRun kA multi_key_del_counterexample.2.1)
+  non_replicated_cluster_counterexample.2.2.2
+    (h 2 false nonReplicatedClusterRun kA non_replicated_cluster_counterexample.2.1)
 
 /-! ## non-vacuity -/
 
@@ -327,6 +320,7 @@ def goodNodeRun : List NEv :=
     .deliver 9 { hashDelta with ts := ⟨20, 2⟩ }, .client (.del [kB, 9]), .client (.hset 9 [(4, [51])]),
     .deliver kB foreignTombstone ]
 
+set_option maxRecDepth 4000 in
 example : Supported (Node.init 1 true) goodNodeRun ∧ goodNodeRun.length = 18 ∧
     served ((Node.init 1 true).run goodNodeRun) kA ≠ none ∧
     served ((Node.init 1 true).run goodNodeRun) 9 ≠ none ∧
@@ -353,14 +347,16 @@ def goodClusterRun : List GEv :=
     .client 1 (.hdel 9 [4]), .client 2 (.get kA),
     .deliver 1 0, .deliver 2 0, .deliver 2 1, .deliver 0 1, .deliver 0 2, .deliver 1 2,
     .deliver 1 2, .deliver 1 3, .deliver 2 3, .deliver 0 5, .deliver 0 4, .deliver 2 5,
-    .deliver 2 4, .deliver 2 4 ]
+    .deliver 2 4, .deliver 2 4,
+    -- a multi-key DEL: one tombstone per key (messages 6 and 7)
+    .client 0 (.del [kA, 9]), .deliver 1 6, .deliver 1 7, .deliver 2 7, .deliver 2 6 ]
 
 example : GSupported (GCluster.init 3 false) goodClusterRun ∧
     KindStable ((GCluster.init 3 false).run goodClusterRun).proj kA 0 ∧
     Delivered ((GCluster.init 3 false).run goodClusterRun).proj kA ∧
     KindStable ((GCluster.init 3 false).run goodClusterRun).proj 9 5 ∧
     Delivered ((GCluster.init 3 false).run goodClusterRun).proj 9 ∧
-    ((GCluster.init 3 false).run goodClusterRun).sent.length = 6 := by
+    ((GCluster.init 3 false).run goodClusterRun).sent.length = 8 := by
   decide
 
 end C06
